@@ -114,9 +114,12 @@ func (p *proxy) call(ctx erpc.UnknownCallCtx) (interface{}, *erpc.Status) {
 	// the body is forwarded as bytes: tell the backend which codec they are in
 	settings = append(settings, erpc.WithBodyCodec(ctx.GetBodyCodec()))
 	callcmd := p.callForwarder(&label).Call(label.ServiceMethod, ctx.InputBodyBytes(), &result, settings...)
-	callcmd.InputMeta().VisitAll(func(key, value []byte) {
-		ctx.SetMeta(goutil.BytesToString(key), goutil.BytesToString(value))
-	})
+	// there is no reply (and no reply metadata) when the backend could not be reached
+	if inputMeta := callcmd.InputMeta(); inputMeta != nil {
+		inputMeta.VisitAll(func(key, value []byte) {
+			ctx.SetMeta(goutil.BytesToString(key), goutil.BytesToString(value))
+		})
+	}
 	if bodyCodec := callcmd.InputBodyCodec(); bodyCodec != 0 {
 		// and the caller which codec the backend's reply body is in
 		ctx.SetBodyCodec(bodyCodec)
